@@ -18,7 +18,7 @@ Q = C + '_mode_ctr._create_ctr_cipher'
 CN = 'Crypto.Util.Counter.new'
 
 
-def ctr_factory_contract(name, route, cl=None):
+def ctr_factory_contract(name, route, cl=None, part=None):
     bs, alg = cf.BLOCK[name], cf.ALG[name]
     P = 'result._state._raw_pointer'
     has_key = "'key' in kwargs"
@@ -29,6 +29,9 @@ def ctr_factory_contract(name, route, cl=None):
     if route == 'nonce':
         # nonce= / initial_value= (big endian counter after the nonce, no suffix)
         shapes = cf.dict_shapes([], [('key', ['bytes']), ('nonce', list(cf.KEYT)), ('initial_value', ['int', 'bytes', 'bytearray']), ('bogus', ['int'])])
+        if part is not None:
+            # the keyword-record shapes are spread over several units (i-th of n): same contract, disjoint entry states
+            shapes = '|'.join(shapes.split('|')[part[0]::part[1]])
         nl = "len(kwargs['nonce'])"
         clen = "(%d - %s if 'nonce' in kwargs else %d)" % (bs, nl, bs - bs // 2)
         ivint = "('initial_value' in kwargs and isinstance(kwargs['initial_value'], int))"
@@ -93,7 +96,8 @@ def ctr_factory_contract(name, route, cl=None):
                     # domain: what Counter.new returns (its contract below): 0 <= initial_value < 256**counter_len
                     requires=["0 <= %s['initial_value'] and %s['initial_value'] < %d" % (ctr, ctr, 256 ** cl)],
                     raises={'TypeError': ('only_if', tfault), 'ValueError': ('only_if', vfault)}, ensures=ensures, modifies=['kwargs'],
-                    options={'max_inline_depth': 40},
+                    # the byte loop forks once per byte (exit or continue): complete unrolling needs counter_len + 1 forks
+                    options={'max_inline_depth': 40, 'fork_unroll_limit': 40},
                     opaque=cf.KEY_OPAQUE)
 
 
@@ -125,7 +129,7 @@ def counter_new_contract(nbits=None):
                     modifies=[], options={'bitlen_thresholds': [nbits] if nbits >= 0 else []})
 
 
-def registry(variant='rw', name='AES', route='nonce', cl=None, nbits=None):
+def registry(variant='rw', name='AES', route='nonce', cl=None, nbits=None, part=None):
     if variant in ('rw', 'ro', 'init'):
         return mc.registry('ctr', variant)
     if variant == 'counter_new':
@@ -141,7 +145,7 @@ def registry(variant='rw', name='AES', route='nonce', cl=None, nbits=None):
     reg = mc.registry('ctr', 'factory0')
     reg.add(mc.init_contract('ctr', for_call=True))
     reg.add(cf.base_cipher_contract(name, for_call=True))
-    reg.add(ctr_factory_contract(name, route, cl))
+    reg.add(ctr_factory_contract(name, route, cl, part))
     return reg
 
 
@@ -157,15 +161,17 @@ def units(prop, tier):
     if prop in ('C02', 'C11', 'C17'):
         out.append(pyvc_unit(prop, 'mode.ctr.init', lambda: registry('init'), [q('__init__')]))
     if prop in ('C02', 'C11'):
-        for name in ('AES', 'DES3'):
-            out.append(pyvc_unit(prop, 'mode.ctr.factory.%s.nonce' % name, lambda name=name: registry('factory', name, 'nonce'), [Q], weight=4))
+        for name, n in (('AES', 4), ('DES3', 2)):
+            for i in range(n):
+                out.append(pyvc_unit(prop, 'mode.ctr.factory.%s.nonce.part%d' % (name, i),
+                                     lambda name=name, i=i, n=n: registry('factory', name, 'nonce', part=(i, n)), [Q], weight=2))
         out.append(pyvc_unit(prop, 'mode.ctr.factory.AES.both', lambda: registry('factory', 'AES', 'both'), [Q]))
         out.append(pyvc_unit(prop, 'mode.ctr.factory.AES.malformed', lambda: registry('factory', 'AES', 'malformed'), [Q]))
         out.append(pyvc_unit(prop, 'mode.ctr.factory.AES.counter_faults', lambda: registry('factory', 'AES', 'counter_faults'), [Q]))
         # Counter route: exhaustive in counter_len (0 and 17 = refused geometries); unbounded in prefix, suffix, initial value
-        for cl in ([0, 1, 4, 8, 16, 17] if tier == 'quick' else list(range(0, 18))):
+        for cl in ([0, 1, 8, 16, 17] if tier == 'quick' else list(range(0, 18))):
             out.append(pyvc_unit(prop, 'mode.ctr.factory.AES.counter%02d' % cl, lambda cl=cl: registry('factory', 'AES', 'counter', cl), [Q], weight=3))
-        for cl in ([4, 8] if tier == 'quick' else list(range(0, 10))):
+        for cl in ([4] if tier == 'quick' else list(range(0, 10))):
             out.append(pyvc_unit(prop, 'mode.ctr.factory.DES3.counter%02d' % cl, lambda cl=cl: registry('factory', 'DES3', 'counter', cl), [Q], weight=2))
         # spec-level lemma: the digit-by-digit counter field of the Counter route == I2OSP / I2LE, per length
         for n in ([0, 1, 4, 8, 16] if tier == 'quick' else list(range(0, 17))):
